@@ -1,24 +1,20 @@
 //# unit varray_kani kind=kani_in crate=rusty_variant inject=rusty_variant/src/array_value.rs
 // C04 — bounded companion of the Verus unit `varray` on the same real functions, executed as black boxes so
-// that it does not depend on the shape of the code: arrays of 1..=3 dimensions, every lower bound in -1..=1,
-// every extent in 1..=2 (<= 8 elements), index tuples fully symbolic.  Also covers `VArray::new`, which
+// that it does not depend on the shape of the code: three concrete array shapes
+// (A(-1 TO 1), A(0 TO 1, -1 TO 1), A(1 TO 2, -1 TO 0, 0 TO 2)), index tuples fully symbolic.  Also covers `VArray::new`, which
 // Verus cannot read (iterator adapter).  Contract (property statement): Subscript out of range exactly when
 // some index lies outside its declared bounds (or the number of subscripts is wrong); distinct in-range index
 // tuples denote distinct elements (row-major offset); a store changes that element and nothing else;
 // LBOUND/UBOUND report the declared bounds.
-//# assume "bounded stand-in: rank <= 3, lower bounds in -1..=1, extents 1..=2; the unbounded statement is the Verus unit varray"
+//# assume "bounded stand-in: three concrete shapes of rank 1..3 (<= 12 elements); the unbounded statement is the Verus unit varray"
 
+/// three concrete shapes (rank 1, 2, 3); index tuples stay fully symbolic
 fn any_dims() -> (usize, [(i32, i32); 3]) {
-    let rank = 1 + vs::choice(3) as usize;
-    let mut d = [(0i32, 0i32); 3];
-    let mut k = 0;
-    while k < 3 {
-        let lo = vs::choice(3) as i32 - 1;
-        let ext = 1 + vs::choice(2) as i32;
-        d[k] = (lo, lo + ext - 1);
-        k += 1;
+    match vs::choice(3) {
+        0 => (1, [(-1, 1), (0, 0), (0, 0)]),
+        1 => (2, [(0, 1), (-1, 1), (0, 0)]),
+        _ => (3, [(1, 2), (-1, 0), (0, 2)]),
     }
-    (rank, d)
 }
 
 fn mk(rank: usize, d: &[(i32, i32); 3]) -> VArray {
@@ -70,8 +66,8 @@ fn volume(rank: usize, d: &[(i32, i32); 3]) -> usize {
     v
 }
 
-//# harness new_and_bounds timeout=400 tier=quick label=bounded(rank<=3,extent<=2) props=C04 fn=rusty_variant/src/array_value.rs::VArray::new,rusty_variant/src/array_value.rs::VArray::get_dimension_bounds
-harness!(new_and_bounds, 10, {
+//# harness new_and_bounds timeout=400 tier=quick label=bounded(3-shapes) props=C04 fn=rusty_variant/src/array_value.rs::VArray::new,rusty_variant/src/array_value.rs::VArray::get_dimension_bounds
+harness!(new_and_bounds, 14, {
     let (rank, d) = any_dims();
     let a = mk(rank, &d);
     assert!(a.len() == volume(rank, &d), "one element per index tuple");
@@ -80,12 +76,12 @@ harness!(new_and_bounds, 10, {
         Some(&(lo, hi)) => assert!(k < rank && lo == d[k].0 && hi == d[k].1, "LBOUND/UBOUND report the declared bounds"),
         None => assert!(k >= rank),
     }
-    reach!(rank == 3 && a.len() == 8);
+    reach!(rank == 3 && a.len() == 12);
     std::mem::forget(a);
 });
 
-//# harness abs_index_row_major timeout=400 tier=quick label=bounded(rank<=3,extent<=2) props=C04 fn=rusty_variant/src/array_value.rs::VArray::abs_index
-harness!(abs_index_row_major, 10, {
+//# harness abs_index_row_major timeout=400 tier=quick label=bounded(3-shapes) props=C04 fn=rusty_variant/src/array_value.rs::VArray::abs_index
+harness!(abs_index_row_major, 14, {
     let (rank, d) = any_dims();
     let a = mk(rank, &d);
     let idx = [vs::i32(), vs::i32(), vs::i32()];
@@ -117,8 +113,8 @@ harness!(abs_index_row_major, 10, {
     std::mem::forget(a);
 });
 
-//# harness store_changes_one_element timeout=400 tier=quick label=bounded(rank<=2,extent<=2) props=C04 fn=rusty_variant/src/array_value.rs::VArray::get_element_mut,rusty_variant/src/array_value.rs::VArray::get_element
-harness!(store_changes_one_element, 12, {
+//# harness store_changes_one_element timeout=400 tier=quick label=bounded(3-shapes) props=C04 fn=rusty_variant/src/array_value.rs::VArray::get_element_mut,rusty_variant/src/array_value.rs::VArray::get_element
+harness!(store_changes_one_element, 14, {
     let (rank0, d) = any_dims();
     let rank = if rank0 > 2 { 2 } else { rank0 };
     let mut a = mk(rank, &d);
